@@ -9,11 +9,11 @@ namespace Nima
 
 /-! ## Denotation -/
 
-/-- A Python float `repr` as (sign, unsigned decimal literal). -/
+/-- A Python float `repr` as (sign, the number its unsigned decimal literal denotes). -/
 def floatData (r : Text) : Data :=
   match r with
-  | '-' :: t => .float true t
-  | t => .float false t
+  | '-' :: t => .float true (decValue t)
+  | t => .float false (decValue t)
 
 mutual
 def denoteE : Elem → Data
@@ -69,15 +69,15 @@ def readCtx : Ctx → Text → Option Data
 /-! ## The property's domain -/
 
 def unsignedRepr (r : Text) : Text := match r with | '-' :: t => t | t => t
+def isNegText (r : Text) : Bool := match r with | '-' :: _ => true | _ => false
 
 /-- exponent of a Python float repr: `e`, a sign, at least two digits -/
 def isPyExp : Text → Bool
   | 'e' :: s :: ds => (s == '+' || s == '-') && ds.length ≥ 2 && ds.all isAsciiDigit
   | _ => false
 
-/-- `repr(x)` of a finite Python float: `-?D+.D+` or `-?D(.D+)?e[+-]DD+`, no leading zeros. -/
-def isPyFloatRepr (r : Text) : Bool :=
-  let u := unsignedRepr r
+/-- the unsigned part of `repr(x)` of a finite Python float: `D+.D+` or `D(.D+)?e[+-]DD+`, no leading zeros -/
+def isPyFloatBody (u : Text) : Bool :=
   let ip := u.takeWhile isAsciiDigit
   (!ip.isEmpty && (ip == ['0'] || ip.head? != some '0')) &&
   match u.dropWhile isAsciiDigit with
@@ -87,6 +87,9 @@ def isPyFloatRepr (r : Text) : Bool :=
     !fp.isEmpty && (ex.isEmpty || (isPyExp ex && ip.length == 1 && ip != ['0']))
   | 'e' :: ex => isPyExp ('e' :: ex) && ip.length == 1 && ip != ['0']
   | _ => false
+
+/-- `repr(x)` of a finite Python float: `-?D+.D+` or `-?D(.D+)?e[+-]DD+`, no leading zeros. -/
+def isPyFloatRepr (r : Text) : Bool := isPyFloatBody (unsignedRepr r)
 
 mutual
 def elemInDomain : Elem → Bool
@@ -123,15 +126,22 @@ def ctxInDomain : Ctx → Bool
 
 /-! ## The side condition under which the rendering is faithful
 
-Floats must happen to be Nix float tokens (Python reprs without a `.` are not), integers must fit
-64 bits. (A negative number may stand anywhere: as a list element it is written in parentheses.) -/
+The literal a float is spelled with must be a Nix float token of the same sign denoting the same
+number as the `repr` (true of every Python repr: `Lemmas/Value.lean`, `pyFloatRepr_litOk`), integers
+must fit 64 bits. (A negative number may stand anywhere: as a list element it is written in parentheses.) -/
+
+/-- the spelling `floatLiteral r` is a Nix float token, of the sign and the value of `r` -/
+def floatLitOk (r : Text) : Bool :=
+  isNixFloat (unsignedRepr (floatLiteral r)) &&
+  (isNegText (floatLiteral r) == isNegText r) &&
+  decide (decValue (unsignedRepr (floatLiteral r)) = decValue (unsignedRepr r))
 
 mutual
 def elemReadable : Elem → Bool
   | .none => true
   | .bool _ => true
   | .int i => i.natAbs ≤ nixIntMax
-  | .float r => isNixFloat (unsignedRepr r)
+  | .float r => floatLitOk r
   | .str s => !hasInterp s
   | .list xs => elemsReadable xs
 def elemsReadable : List Elem → Bool
@@ -165,18 +175,18 @@ def ctxReadable : Ctx → Bool
   | .setItem d k v => valReadable (.dict d) && isDataKey k && valReadable v
   | .setItemOn d _ k v => valReadable (.dict d) && isDataKey k && valReadable v
 
-/-! ## The two documented defects that remain, named directly
+/-! ## The documented defect that remains, named directly
 
-For values of the domain, `…Readable` is equivalent to avoiding them (`Lemmas/Value.lean`,
-`readable_eq_avoids`): no float whose repr lacks a `.`, no integer outside 64 bits. The harness
-classifies failing inputs with the same two tests. -/
+For values of the domain, `…Readable` is equivalent to avoiding it (`Lemmas/Value.lean`,
+`readable_eq_avoids`): no integer outside 64 bits. The harness classifies failing inputs with the
+same test. -/
 
 mutual
 def elemAvoids : Elem → Bool
   | .none => true
   | .bool _ => true
   | .int i => i.natAbs ≤ nixIntMax
-  | .float r => (unsignedRepr r).contains '.'
+  | .float _ => true
   | .str _ => true
   | .list xs => elemsAvoid xs
 def elemsAvoid : List Elem → Bool
